@@ -551,6 +551,9 @@ class PolygonTensor(PolytopeTensor):
             e = self._plane
             o = Point(*[0] * self.dim)
             if e.free_indices > 0:
+                # work on a copy: the planes of the polygons must not be replaced by the parallel planes
+                e = e.copy()
+                e.array = e.array.copy()
                 ind = ~e.contains(o)
                 e[ind] = cast(PlaneTensor, e[ind]).parallel(o)
             elif not e.contains(o):
